@@ -20,7 +20,7 @@ type SigField struct {
 	Sub        string `json:"sub,omitempty"`
 	Other      bool   `json:"other,omitempty"` // unrelated tag keys present
 	Unexported bool   `json:"unexp,omitempty"`
-	Type       int    `json:"type"` // 0..7 universe, 8 int, 9 string, 10 error (interface)
+	Type       int    `json:"type"` // 0..7 universe, 8 int, 9 string, 10 error (interface), 11.. exotic kinds (exoticTypes)
 }
 
 type SigSide struct {
@@ -44,9 +44,33 @@ func sigType(t int) reflect.Type {
 		return reflect.TypeOf(0)
 	case t == 9:
 		return reflect.TypeOf("")
-	default:
+	case t == 10:
 		return errIface
+	default:
+		return exoticTypes[(t-11)%len(exoticTypes)]
 	}
+}
+
+// exoticTypes are reflect kinds and shapes outside the struct/interface
+// universe: the signature walk must report every one of them as it is
+// declared, without looking inside.
+var exoticTypes = []reflect.Type{
+	reflect.TypeOf([]engine.T0(nil)),
+	reflect.TypeOf(map[string]engine.T1(nil)),
+	reflect.TypeOf((chan int)(nil)),
+	reflect.TypeOf((func(engine.T0) engine.T1)(nil)),
+	reflect.TypeOf([3]engine.T2{}),
+	reflect.TypeOf((*engine.T0)(nil)),
+	reflect.TypeOf(struct{ X int }{}),
+	reflect.TypeOf(struct{}{}),
+	reflect.TypeOf((*interface{})(nil)).Elem(),
+	reflect.TypeOf((**int)(nil)),
+	reflect.TypeOf([0]int{}),
+	reflect.TypeOf(stInner{}),               // a marker struct used as a FIELD / beside nothing else is handled by the forms; as a field type it is an ordinary value
+	reflect.TypeOf((*stPlain)(nil)),         // pointer to a plain struct
+	reflect.TypeOf((<-chan engine.I0)(nil)), // directional channel of an interface
+	reflect.TypeOf(uintptr(0)),
+	reflect.TypeOf(complex64(0)),
 }
 
 func (f SigField) tag() reflect.StructTag {
@@ -345,6 +369,9 @@ func evalC14(c *engine.Case) engine.Verdict {
 			if fl.Other {
 				v.Class("unrelated-tag-keys")
 			}
+			if fl.Type > 10 {
+				v.Class("exotic-kind")
+			}
 			if fl.Type == 10 && s.Form == "pos" && (i < len(s.Fields)-1 || x.FinalErr) && &s == &s {
 				v.Class("error-result-not-final")
 				nt = true
@@ -367,6 +394,13 @@ func genSigSide(g engine.G, output bool) SigSide {
 	usedTyped := map[string]bool{}
 	for i := 0; i < n; i++ {
 		f := SigField{Type: g.Int(0, 9)}
+		if g.Pct(25) {
+			f.Type = 11 + g.Int(0, len(exoticTypes)-1)
+			// a marker struct as a positional parameter is a FORM, not a value
+			if s.Form == "pos" && sigType(f.Type) == reflect.TypeOf(stInner{}) {
+				f.Type = 11
+			}
+		}
 		if s.Form == "pos" {
 			if output && g.Pct(20) {
 				f.Type = 10
